@@ -1,4 +1,6 @@
 """C04 — checkpoint safety: the completion signal never precedes completion."""
+from hypothesis import strategies as st
+
 from harness import local
 from harness.elements import prov
 from harness.runner import Part, Result
@@ -209,4 +211,40 @@ def strategy(tier="quick"):
     return mdcommon.md_case(tier, faults=True)
 
 
-PARTS = [Part("schedules", strategy, execute, quick=1600, thorough=8000)]
+@st.composite
+def one_to_many_case(draw, tier="quick"):
+    """batching node -> flatten -> optional holding node -> asynchronous consumer: the pieces of
+    one batch are in flight at different places when its counter is triggered"""
+    from harness import schedule
+    nodes = [{"k": "entry", "u": [], "p": {}, "t": "E"}]
+    b = draw(st.sampled_from(["sliding_window", "pair", "partition"]))
+    if b == "sliding_window":
+        n = draw(st.integers(2, 3))
+        partial = draw(st.booleans())
+        nodes.append({"k": "sliding_window", "u": [0], "p": {"n": n, "partial": partial},
+                      "t": ["L", "E"] if partial else ["H", ["E"] * n]})
+    elif b == "pair":
+        nodes.append({"k": "map", "u": [0], "p": {"f": "pair"}, "t": ["H", ["E", "E"]]})
+    else:
+        n = draw(st.integers(2, 3))
+        nodes.append({"k": "partition", "u": [0], "p": {"n": n, "key": None}, "t": ["H", ["E"] * n]})
+    nodes.append({"k": "flatten", "u": [1], "p": {}, "t": "E"})
+    h = draw(st.sampled_from([None, None, "buffer", "delay", "partition", "map"]))
+    if h == "buffer":
+        nodes.append({"k": "buffer", "u": [2], "p": {"n": draw(st.integers(1, 3))}, "t": "E"})
+    elif h == "delay":
+        nodes.append({"k": "delay", "u": [2], "p": {"i": 0.5}, "t": "E"})
+    elif h == "partition":
+        nodes.append({"k": "partition", "u": [2], "p": {"n": 2, "key": None}, "t": ["H", ["E", "E"]]})
+    elif h == "map":
+        nodes.append({"k": "map", "u": [2], "p": {"f": "inc"}, "t": "E"})
+    nodes.append({"k": "sink", "u": [len(nodes) - 1], "p": {}, "t": None})
+    spec = {"nodes": nodes, "fb": None}
+    cm = {str(len(nodes) - 1): draw(st.sampled_from(["fut", "fut", "coro", "sync"]))}
+    acts = draw(schedule.actions_strategy(spec, max_actions=24, min_actions=4))
+    md = draw(st.lists(st.sampled_from([1, 1, 2, 0]), min_size=1, max_size=4))
+    return {"spec": spec, "cmodes": cm, "actions": acts, "md": md}
+
+
+PARTS = [Part("schedules", strategy, execute, quick=1600, thorough=8000),
+         Part("one-to-many", one_to_many_case, execute, quick=300, thorough=3000)]
